@@ -2,12 +2,14 @@ package sim
 
 import (
 	"bytes"
+	"encoding/json"
 	"errors"
 	"fmt"
 	"io"
 	"net/http"
 	"net/http/httptest"
 	"runtime/debug"
+	"sort"
 	"strings"
 )
 
@@ -179,7 +181,7 @@ func (n *Net) RoundTrip(req *http.Request) (*http.Response, error) {
 	}
 	obs.Executed = true
 	obs.Status = rec.Code
-	obs.Resp = rec.Body.Bytes()
+	obs.Resp = canonKeysets(uri, rec.Code, rec.Body.Bytes())
 	obs.RetSeq = n.s.Seq()
 	if n.World.Book != nil {
 		n.World.Book.Ingest(obs)
@@ -227,4 +229,45 @@ func trimStack(b []byte) string {
 		}
 	}
 	return strings.Join(keep, " | ")
+}
+
+// canonKeysets: gonuts emits the array of GET /v1/keysets in Go map iteration order, which differs
+// from run to run. The array order carries no meaning, so the transport delivers it sorted by id
+// (content-preserving); every client - harness actors and real wallets - then behaves identically
+// for the same decision tape (DESIGN.md §8).
+func canonKeysets(uri string, code int, body []byte) []byte {
+	if code != 200 || !(uri == "/v1/keysets" || strings.HasPrefix(uri, "/v1/keysets?")) {
+		return body
+	}
+	var m struct {
+		Keysets []json.RawMessage `json:"keysets"`
+	}
+	if json.Unmarshal(body, &m) != nil || len(m.Keysets) < 2 {
+		return body
+	}
+	type kv struct {
+		id  string
+		raw json.RawMessage
+	}
+	var ks []kv
+	for _, r := range m.Keysets {
+		var x struct {
+			ID string `json:"id"`
+		}
+		if json.Unmarshal(r, &x) != nil {
+			return body
+		}
+		ks = append(ks, kv{x.ID, r})
+	}
+	sort.SliceStable(ks, func(i, j int) bool { return ks[i].id < ks[j].id })
+	var b bytes.Buffer
+	b.WriteString(`{"keysets":[`)
+	for i, k := range ks {
+		if i > 0 {
+			b.WriteByte(',')
+		}
+		b.Write(k.raw)
+	}
+	b.WriteString("]}")
+	return b.Bytes()
 }
